@@ -41,6 +41,34 @@ func runC05(r *run) {
 			a = append(a, "-", "-", fmt.Sprint([]int{2, 4, 8}[i%3]), fmt.Sprint([]int{1, 4, 16}[(i/3)%3]))
 			cases = append(cases, caseT{"conc", a})
 		}
+		// every registered filter and tag at least once under concurrent execution; those that
+		// are random or read the clock cannot be compared with a sequential run: race-only
+		for _, f := range pongo2.VerifRegisteredFilters() {
+			src := "{{ s1|" + f + " }}{{ lst|" + f + " }}{{ n1|" + f + ":2 }}{% for q in nums %}{{ q|" + f + " }}{% endfor %}"
+			w := &world{}
+			g := newProgGen(rg.fork(uint64(50000)))
+			a := append(w.args(src, g.context(0)), hexList([]string{"verifprobe"}), hexList([]string{"verifprobetag"}), "4", "4", "nocompare")
+			cases = append(cases, caseT{"conc", a})
+		}
+		for _, t := range pongo2.VerifRegisteredTags() {
+			use, ok := c03TagUse[t]
+			if !ok || t == "extends" {
+				continue
+			}
+			use = strings.ReplaceAll(use, "FILE", "lazy.tpl")
+			if t == "import" {
+				continue
+			}
+			w := &world{files: []map[string]string{{"lazy.tpl": "L{{ s1 }}"}}}
+			g := newProgGen(rg.fork(uint64(50001)))
+			a := append(w.args("{% for q in nums %}"+use+"{% endfor %}"+use, g.context(0)), hexList([]string{"verifprobe"}), hexList([]string{"verifprobetag"}), "4", "4", "nocompare")
+			cases = append(cases, caseT{"conc", a})
+		}
+		for _, src := range []string{"{% lorem 3 w random %}{% lorem 2 p random %}", "{{ lst|random }}{{ nums|random }}{{ s1|random }}", "{% now \"2006\" %}"} {
+			g := newProgGen(rg.fork(uint64(50002)))
+			a := append((&world{}).args(src, g.context(0)), "-", "-", "8", "4", "nocompare")
+			cases = append(cases, caseT{"conc", a})
+		}
 		if childMode || replayFile != "" {
 			return
 		}
@@ -116,6 +144,9 @@ func execC05(r *run, c caseT) {
 	close(start)
 	wg.Wait()
 	id := r.emit("render", c.args, seq.obs)
+	if len(c.args) > 11 && c.args[11] == "nocompare" {
+		return
+	}
 	for _, o := range outs {
 		if o != seq.obs {
 			r.reject(id, "a concurrent execution returned something else than the sequential one", map[string]any{"template": src, "sequential": seq.obs, "concurrent": o})
